@@ -3052,7 +3052,11 @@ impl<'a, F: VfsFile> RangeScanIterator<'a, F> {
 
 		// Find the first key >= start_key in the leaf
 		let current_idx = if start_key.is_empty() {
-			0 // Start from beginning for unbounded
+			match start {
+				// An excluded empty key excludes exactly the (first) entry stored under the empty key
+				Bound::Excluded(_) => leaf.keys.partition_point(|k| k.is_empty()),
+				_ => 0, // Start from beginning for unbounded
+			}
 		} else {
 			match start {
 				Bound::Included(key) => {
